@@ -361,6 +361,105 @@ class Facts:
                 out.add(i)
         return out
 
+    def callers(self):
+        """reverse call graph: id -> set of caller ids"""
+        if getattr(self, '_rcg', None) is None:
+            r = {}
+            for a, outs in self.callgraph().items():
+                for b in outs:
+                    r.setdefault(b, set()).add(a)
+            self._rcg = r
+        return self._rcg
+
+    def reached_only_through(self, fn, allowed, depth=0):
+        """Is `fn` one of the `allowed` functions (qualified names, closures count as their parent), or a private helper
+        (not `pub`) all of whose callers are?  who-may-call rules use this so that extracting a private helper out of an
+        allowed function does not make the helper an intruder."""
+        import re
+        q = re.sub(r'::\{closure#\d+\}', '', fn.qname)
+        if q in allowed:
+            return True
+        if depth >= 3 or fn.d.get('vis') == 'Public':
+            return False
+        base = self.fn(q) or fn
+        cs = [self.fns[c] for c in self.callers().get(base.id, ()) if c != base.id and re.sub(r'::\{closure#\d+\}', '', self.fns[c].qname) != q]
+        return bool(cs) and all(self.reached_only_through(c, allowed, depth + 1) for c in cs)
+
+    def inlined(self, fn, depth=2, _stack=(), keep=()):
+        """`fn` with the bodies of the private helpers of its own module spliced into its MIR (call -> parameter
+        assignments + goto entry; return -> assignment of the result + goto continuation), `depth` levels deep.
+        Extract-method refactorings are invisible to path and data-flow rules that look at this view.  Only non-public,
+        non-recursive, non-trait functions of the same module (and impl) are inlined; censuses that count per function
+        must keep using the plain view."""
+        import copy
+        if not fn.mir or depth <= 0:
+            return fn
+        key = (fn.id, depth, tuple(keep))
+        cache = self.__dict__.setdefault('_inl', {})
+        if key in cache:
+            return cache[key]
+        mod = fn.qname.rsplit('::', 1)[0]
+        mir = copy.deepcopy(fn.mir)
+        blocks = mir['blocks']
+        locals_ = mir['locals']
+        changed = False
+
+        def remap(x, off, boff):
+            """shift local indices and block indices of a copied MIR fragment"""
+            if isinstance(x, dict):
+                out = {}
+                for k, v in x.items():
+                    if k == 'l' and isinstance(v, int):
+                        out[k] = v + off
+                    elif k in ('target', 'otherwise', 'unwind') and isinstance(v, int):
+                        out[k] = v + boff
+                    elif k == 'targets' and isinstance(v, list):
+                        out[k] = [[a, b + boff] for a, b in v]
+                    else:
+                        out[k] = remap(v, off, boff)
+                return out
+            if isinstance(x, list):
+                return [remap(v, off, boff) for v in x]
+            return x
+        for i in range(len(blocks)):      # the original blocks only: spliced bodies were inlined by the recursive call
+            b = blocks[i]
+            t = b['term']
+            if b.get('cleanup') or t['t'] != 'call' or t.get('target') is None:
+                continue
+            info = callee_of(t)
+            g = self.fns.get((info or {}).get('resolved_id') or (info or {}).get('id')) if info else None
+            if g is None or not g.mir or g.id == fn.id or g.id in _stack or g.kind == 'Closure' or g.d.get('vis') == 'Public':
+                continue
+            if g.qname.split('::')[-1] in keep:
+                continue
+            if g.d.get('impl_trait') or not g.qname.startswith(mod.rsplit('::', 1)[0] if fn.kind == 'AssocFn' else mod):
+                continue
+            if len(g.mir['blocks']) > 120:
+                continue
+            gi = self.inlined(g, depth - 1, _stack + (fn.id,), keep)
+            off, boff = len(locals_), len(blocks)
+            mir.setdefault('ret_locals', [0]).append(off)
+            mir['ret_locals'] += [off + r for r in gi.mir.get('ret_locals', [0]) if r != 0]
+            locals_.extend(copy.deepcopy(gi.mir['locals']))
+            for gb in gi.mir['blocks']:
+                nb = remap(copy.deepcopy(gb), off, boff)
+                if nb['term']['t'] == 'return':
+                    nb['stmts'] = nb['stmts'] + [{'s': 'assign', 'ln': t.get('ln'), 'place': t['dest'], 'rv': {'r': 'use', 'op': {'o': 'move', 'l': off, 'proj': [], 'ty': gi.mir['locals'][0]['ty']}}}]
+                    nb['term'] = {'t': 'goto', 'target': t['target'], 'ln': t.get('ln')}
+                blocks.append(nb)
+            for k, a in enumerate(t['args']):
+                b['stmts'] = b['stmts'] + [{'s': 'assign', 'ln': t.get('ln'), 'place': {'l': off + 1 + k, 'proj': [], 'ty': a.get('ty', '')}, 'rv': {'r': 'use', 'op': a}}]
+            b['term'] = {'t': 'goto', 'target': boff, 'ln': t.get('ln'), 'inlined': g.qname}
+            changed = True
+        if not changed:
+            cache[key] = fn
+            return fn
+        d2 = dict(fn.d)
+        d2['mir'] = mir
+        out = Fn(fn.crate, d2)
+        cache[key] = out
+        return out
+
     def reachable(self, roots):
         cg = self.callgraph()
         seen = set()
